@@ -104,6 +104,19 @@ CLAIMED = {
    note="Trusted as C01. Known finding: BulkSynchronous with conflict detection (aborted item of round r retried after round r+1 started; lost children).",
    technique="TLA+ abstract specification with level rules + TLC trace validation of real level-synchronous for_each executions",
    engine="ctl+free+tv", design_ref="6/C08"),
+ "C03": dict(
+   category="model_checking",
+   text="DoAll.tla models the per-thread shared range under work_mutex, chunk grabbing from the front, half/all stealing under "
+        "try_lock, the in-flight window and assignWork, and the exit without termination detection; ThreadPool.tla models the binary "
+        "wake-up cascade and done-flag de-cascade over sequences of regions with changing thread counts; TLC checks exactly-once / "
+        "join for all interleavings (2-3 threads) plus two mutant vacuity guards. The real do_all (integer, vector, list, forward "
+        "iterator, InsertBag local ranges; chunk sizes 1..4096; steal on/off; sizes 0..10^4 incl. non-multiples), on_each and "
+        "ThreadPool::run sequences (incl. burnPower fast mode) run under controlled schedules on four topologies, jitter and free; "
+        "per-element / per-thread counters and the join counter are judged by TLC against DoAllAbs.",
+   note="Trusted: TLC, controlled runtime, the counters in harness/src/doall.cpp. Pool wake-up through mutex/condvar runs outside the "
+        "controlled region (free) -- its model is checked exhaustively instead.",
+   technique="PlusCal/TLA+ models checked by TLC + controlled-schedule / free execution of the real loops + TLC evaluation of recorded summaries",
+   engine="mc+ctl+free+tv", design_ref="6/C03"),
 }
 
 NOT_YET = "check not built yet in this round (specification and harness planned in DESIGN.md section 6); not claimed"
